@@ -36,6 +36,10 @@ def jobs(tier):
         out.append(("%s.flat2~backslash.P16384" % which, "job", dict(which=which, shape="flat2~backslash", P=16384, K=1, order="reversed")))
         out.append(("%s.nested3~backslash.P16384" % which, "job", dict(which=which, shape="nested3~backslash", P=16384, K=1, order="reversed")))
     from harness import matrix
+    for which in ("3a", "3c"):        # always: contents with a zero tail from a solver-chosen offset
+        for tree in ("flat2", "single"):
+            row = {"tree": tree, "spelling": "abs", "route": "path", "progress": 0, "plen": "str32768", "content": "zero-tail", "extra": "none", "history": "none"}
+            out.append(("zero-tail.%s.%s" % (which, tree), "job_matrix", dict(which=which, row=row)))
     for i, row in matrix.rows(tier):
         for which in (("3a", "3c") if not q else (("3a",) if i % 2 else ("3c",))):
             out.append(("matrix.%s.%s" % (which, matrix.label(i, row)), "job_matrix", dict(which=which, row=row)))
